@@ -240,6 +240,7 @@ type World struct {
 	DiskFn      func(c DiskCall) DiskVerdict // R10: verdict for one data-file read/write
 	DiskSlowFor func(c DiskCall) time.Duration
 	Log         func(format string, a ...interface{})
+	StrictLocks bool // every lock acquisition of a simulated goroutine is arbitrated at quiescence (lock.go)
 	KeysPerm    bool // permute map iteration order (seeded) instead of plain sorted order
 
 	Fatals  []string
